@@ -105,6 +105,8 @@ fn main() {
     p!("RB_CORRELATION_COUNTER_OFFSET", rb::CORRELATION_COUNTER_OFFSET);
     p!("RB_CONSUMER_HEARTBEAT_OFFSET", rb::CONSUMER_HEARTBEAT_OFFSET);
     p!("RB_TRAILER_LENGTH", rb::TRAILER_LENGTH);
+    p!("RB_HEADER_LENGTH", rb::record_descriptor::HEADER_LENGTH);
+    p!("RB_ALIGNMENT", rb::record_descriptor::ALIGNMENT);
     // broadcast
     p!("BC_TAIL_INTENT_COUNTER_OFFSET", bbd::TAIL_INTENT_COUNTER_OFFSET);
     p!("BC_TAIL_COUNTER_OFFSET", bbd::TAIL_COUNTER_OFFSET);
@@ -112,6 +114,7 @@ fn main() {
     p!("BC_TRAILER_LENGTH", bbd::TRAILER_LENGTH);
     p!("BC_HEADER_LENGTH", brd::HEADER_LENGTH);
     p!("BC_RECORD_ALIGNMENT", brd::RECORD_ALIGNMENT);
+    p!("BC_MAX_MSG_1024", brd::calculate_max_message_length(1024));
     // counters
     p!("NULL_COUNTER_ID", counters::NULL_COUNTER_ID);
     p!("RECORD_UNUSED", counters::RECORD_UNUSED);
@@ -126,6 +129,9 @@ fn main() {
     p!("LABEL_LENGTH_OFFSET", *counters::LABEL_LENGTH_OFFSET);
     p!("KEY_OFFSET", *counters::KEY_OFFSET);
     p!("TYPE_ID_OFFSET", *counters::TYPE_ID_OFFSET);
+    // client heartbeat counter / error codes (C11, C12)
+    p!("CLIENT_HEARTBEAT_TYPE_ID", aeron_rs::heartbeat_timestamp::CLIENT_HEARTBEAT_TYPE_ID);
+    p!("MAX_MOMENT", aeron_rs::utils::types::MAX_MOMENT);
     // command / event struct sizes
     p!("CLIENT_TIMEOUT_LENGTH", client_timeout_flyweight::CLIENT_TIMEOUT_LENGTH);
     p!("CORRELATED_MESSAGE_LENGTH", correlated_message_flyweight::CORRELATED_MESSAGE_LENGTH);
